@@ -51,7 +51,7 @@ def gen_function(args):
         for ob in rep.obligations:
             g = z3.simplify(ob.goal)
             triv = z3.is_true(g)
-            obs.append(dict(name=ob.name, kind=ob.kind, where=ob.where, path=ob.path, trivial=triv,
+            obs.append(dict(name=ob.name, kind=ob.kind, where=ob.where, path=ob.path, trivial=triv, const_false=z3.is_false(g),
                             smt2=None if triv else solve.to_smt2(ob), ground=not triv))
         # vacuity canaries: per path, the hypotheses of its last obligation with goal False must NOT be provable
         last = {}
@@ -93,6 +93,15 @@ def run_property(prop, tier='quick', seed=0, out=sys.stdout):
     from contracts import REG, PROPERTY_NOTES
     procs = int(os.environ.get('PYVC_PROCS', '14'))
     quals = sorted(q for q, c in REG.contracts.items() if prop in c.props and not c.assumed)
+    if prop == 'C10':
+        # determinism obligations can arise in any function that iterates, sorts, reads the clock or draws random numbers
+        src0 = Source()
+        for q, c in REG.contracts.items():
+            fi = src0.funcs.get(q)
+            if fi is not None and not c.assumed and q not in quals and any(
+                    k in fi.src for k in ('for ', 'sorted(', 'set(', 'time.', 'default_rng', 'random')):
+                quals.append(q)
+        quals = sorted(quals)
     lemmas = [nm for nm, props, fn in REG.lemmas if prop in props]
     ctx = mp.get_context('fork')
     # one fresh process per function: no state (interned codes, caches) can leak from one function's verification to another's
@@ -110,7 +119,7 @@ def run_property(prop, tier='quick', seed=0, out=sys.stdout):
             continue
         if rep['status'] != 'ok':
             undecided_fn.append(f"{rep['qual']}: {rep['status']}: {rep['reason']}")
-        mine = [o for o in rep['obligations'] if owns(o['name'], prop, c.props)]
+        mine = [o for o in rep['obligations'] if owns(o['name'], prop, c.props if prop in c.props else [])]
         for o in mine:
             o['function'] = rep['qual']
         allobs.extend(mine)
@@ -126,7 +135,7 @@ def run_property(prop, tier='quick', seed=0, out=sys.stdout):
         o['function'] = 'lemma'
         allobs.append(o)
     # ---- discharge
-    jobs = [(i, o['smt2'], 'cover' if o['kind'] == 'cover' else tier, o.get('ground')) for i, o in enumerate(allobs) if not o['trivial']]
+    jobs = [(i, o['smt2'], 'cover' if o['kind'] == 'cover' else tier, 'reach' if o.get('const_false') else o.get('ground')) for i, o in enumerate(allobs) if not o['trivial']]
     for o in allobs:
         if o['trivial']:
             o['result'] = dict(verdict='unsat', solver='simplifier', seconds=0.0, model=None, log=[])
@@ -166,7 +175,7 @@ def run_property(prop, tier='quick', seed=0, out=sys.stdout):
         vio_names.setdefault(o['name'], []).append(o)
     known_printed, new_violations = [], []
     for name, obs in sorted(vio_names.items()):
-        kf = [k for k in known if k.get('property') == prop and k.get('obligation') == name and k.get('status', 'open') == 'open']
+        kf = [k for k in known if k.get('obligation') == name and k.get('status', 'open') == 'open']
         if kf:
             line = f"KNOWN-FINDING: property={prop} {kf[0]['what']} [obligation {name}]"
             print(line, file=out)
@@ -198,7 +207,7 @@ def run_property(prop, tier='quick', seed=0, out=sys.stdout):
     new_violations = confirmed
     still = []
     for o in undecided:
-        kf = [k for k in known if k.get('property') == prop and k.get('obligation') == o['name'] and k.get('status', 'open') == 'open']
+        kf = [k for k in known if k.get('obligation') == o['name'] and k.get('status', 'open') == 'open']
         if kf:
             # a recorded finding whose obligation is (as expected) not provable: the solvers need not re-find the witness
             line = f"KNOWN-FINDING: property={prop} {kf[0]['what']} [obligation {o['name']}]"
